@@ -144,10 +144,10 @@ func VerifC18Validate() {
 	for i := 0; i < len(s); i++ {
 		nd.Assume(s[i] >= 'g' && s[i] <= 'z')
 	}
-	ci := nd.Choose(5)
-	constraint := []string{"required", "min=2", "max=1", "min=1,max=2", "alpha"}[ci]
+	ci := nd.Choose(7)
+	constraint := []string{"required", "min=2", "max=1", "min=1,max=2", "alpha", "omitempty,min=2", "omitempty,max=1"}[ci]
 	// in a tag, several constraints are written space-separated (commas separate tag arguments)
-	constraintTag := []string{"required", "min=2", "max=1", "min=1 max=2", "alpha"}[ci]
+	constraintTag := []string{"required", "min=2", "max=1", "min=1 max=2", "alpha", "omitempty min=2", "omitempty max=1"}[ci]
 	optional := nd.Bool()
 	hasValidate := nd.Bool()
 	tag := "${k:}"
@@ -189,4 +189,78 @@ func VerifC18Validate() {
 		nd.Cover("constraint satisfied")
 	}
 	nd.Assert((err != nil) == (verdict != nil), "C18: start-up fails exactly when the bound value violates the stated constraints")
+}
+
+type vExprNumHolder struct {
+	S string  `value:"x"`
+	F float64 `value:"x"`
+}
+
+// C18 (b'): a family of CONCRETE numeric expressions over configured numbers (evaluated by the
+// real expr-lang on both sides): the field receives the expression's result, also for results
+// of large magnitude.
+func VerifC18ExprNumbers() {
+	type tc struct {
+		a, b any
+		tmpl string
+	}
+	cases := []tc{
+		{1.0e10, 1.0e9, "#{${a}*${b}}"},
+		{3.0, 0.5, "#{${a}*${b}}"},
+		{2, 3, "#{${a}+${b}}"},
+		{7, 2, "#{${a}-${b}}"},
+		{1.5, 2.25, "#{${a}+${b}}"},
+		{4, 4, "#{${a}*${b}*1e18}"},
+		{1, 2, "#{${a}<${b}}"},
+	}
+	c := cases[nd.Choose(len(cases))]
+	cfg := &vCfg{keys: []string{"a", "b"}, vals: []any{c.a, c.b}}
+	reg := support.DefaultDefinitionRegistry()
+	va := NewValueAwarePostProcessors().(*valueAwarePostProcessors)
+	h := &vExprNumHolder{}
+	nd.Assert(va.PostProcessDefinitionRegistry(reg, h, "h") == nil, "scan ok")
+	meta := reg.GetMetaByName("h")
+	toFloat := nd.Bool()
+	fld := meta.Fields[0]
+	if toFloat {
+		fld = meta.Fields[1]
+	}
+	prop := component_definition.NewProperty(fld, component_definition.PropertyTypeConfiguration, "value", c.tmpl)
+	props := []*component_definition.Property{prop}
+	cq := vQuoteProc(cfg)
+	ex := NewExpressionTagAwarePostProcessors()
+	// the oracle: substitute, then evaluate with the same library
+	sa, _ := strconv2.FormatAny(c.a)
+	sb, _ := strconv2.FormatAny(c.b)
+	text := ""
+	for i := 2; i < len(c.tmpl)-1; i++ { // strip "#{" and "}" and substitute ${a} / ${b}
+		if i+3 < len(c.tmpl) && c.tmpl[i] == '$' && c.tmpl[i+1] == '{' {
+			if c.tmpl[i+2] == 'a' {
+				text += sa
+			} else {
+				text += sb
+			}
+			i += 3
+			continue
+		}
+		text += string(c.tmpl[i])
+	}
+	want, ok := vEval(text)
+	nd.Assert(ok, "oracle expression evaluates")
+	for _, p := range []container.InstantiationAwareComponentPostProcessor{cq, ex} {
+		_, err := p.PostProcessProperties(props, h, "h")
+		nd.Assert(err == nil, "C18: resolving and evaluating a well-formed expression succeeds")
+		if err != nil {
+			return
+		}
+	}
+	nd.Observe("tagval", prop.TagVal)
+	nd.Assert(prop.TagVal == want, "C18: the field receives the expression's result (evaluated on the substituted text)")
+	if _, isBool := c.a.(int); isBool && c.tmpl == "#{${a}<${b}}" {
+		nd.Cover("boolean result")
+		return
+	}
+	_, err := va.PostProcessProperties(props, h, "h")
+	nd.Assert(err == nil, "C18: binding the expression's result succeeds")
+	nd.Cover("numeric expression evaluated")
 }
